@@ -1,6 +1,6 @@
 """C04: mul_rounded, div_rounded and quantize round the exact result once, per mode (oracle: Appendix A.3 / A.4)."""
 from ..absint import Interp, Opts, Agg, Int, K, ZERO, NONZERO, POS
-from ..harness import (M, T_DIVR, T_MULR, SCALES_QUICK, SCALES_ALL, dec_val, int_val, dec_parts, opt_parts, poly_eq, show_outcome,
+from ..harness import (dec_coeff, M, T_DIVR, T_MULR, SCALES_QUICK, SCALES_ALL, dec_val, int_val, dec_parts, opt_parts, poly_eq, show_outcome,
                        show_poly, notes_of, get_db, run_jobs, find_root)
 from ..db import INT_TYPES9, span_str
 from ..poly import padd, pscale, pconst, pmul, pneg, pfreeze
@@ -22,14 +22,14 @@ def run_job(job):
     st = I.new_state()
     if form in ('DD', 'DI'):
         xa = dec_val(st, 'x', p)
-        xc = xa.fields[0]
+        xc = dec_coeff(xa)
     else:
         xa = int_val(st, 'x', ty)
         xc = xa
         p = 0
     if form in ('DD', 'ID'):
         ya = dec_val(st, 'y', q)
-        yc = ya.fields[0]
+        yc = dec_coeff(ya)
     else:
         ya = int_val(st, 'y', ty)
         yc = ya
